@@ -152,6 +152,26 @@ PROPS = {
         "not_decided": ["equality of values for collection shapes (C20 capture/apply)", "feedback inside nested graphs beyond C09 delegation",
                         "quiescence with a passive reader as a whole-run statement (only the selectors are proved)"],
     },
+    "C10": {
+        "modules": ["contracts.c10_map"],
+        "level": "proof",
+        "design_ref": "DESIGN.md section 0.2 / section 8, C10",
+        "trusted_base": [
+            "map_reconcile_keys and prepare_map_evaluation_slots preserve EntryInv (schedule_context.storage == this, .slot == slot) and "
+            "PW (a remembered pulled deadline is in the heap) and only create/stop children (not under contract yet)",
+            "child GraphView::evaluate/stop follow the graph.cpp contracts (C02/C14): evaluate leaves the cached next time MAX_DT or "
+            "strictly future, may push out-of-band schedules (the heap only grows), touches no other child",
+            "std::push_heap/pop_heap/front with std::greater<> implement a bag with a minimum (library model)",
+            "bind_mapped_child_inputs/_output, finalize_mapped_child_output only touch bindings and outputs",
+            "capture_node_error / make_node_error_value carry the node, time and message they are given (node_error.cpp)",
+        ],
+        "assumptions": [],
+        "not_decided": ["the output key set mirrors the input key set (key reconciliation: map_reconcile_keys, create_entry_at_slot, "
+                        "remove_entry_at_slot's output erase) -- not under contract",
+                        "each key's stream equals the mapped function run alone; fresh state after re-add; isolation of state (relational)",
+                        "schedule coverage across a pause/resume of the evaluation loop (only the positions visited by one call)",
+                        "tsl_map_node.cpp, mesh_node.cpp"],
+    },
     "C12": {
         "modules": ["contracts.c12_switch"],
         "level": "proof",
